@@ -43,6 +43,7 @@ class Unit(object):
         self.result = result                 # value spec of the result (for call-by-contract)
         self.callee_units = callee_units or {}   # (class, method) -> Unit : call sites use that unit's contract
         self.defaults = {}
+        self.ghost_params = []                   # params that are ghost state: bound from the caller's like-named ghost
         self.global_callees = {}                 # bare-name callees (module functions): name -> VFun
         self.defs = defs or {}
         self.prebind = prebind or {}
@@ -147,8 +148,12 @@ class Executor(EvalMixin, MethodsMixin, ExecMixin):
             def call(ex, st, args, kw, node):
                 def ambient(spec):
                     return isinstance(spec, tuple) and spec[0] == "obj" and spec[1].startswith("module:")
-                names = [p for p in cu.params if p != "self" and not ambient(cu.params[p])]
+                names = [p for p in cu.params if p != "self" and not ambient(cu.params[p]) and p not in cu.ghost_params]
                 env2 = {}
+                for gp in cu.ghost_params:
+                    if gp not in st.env:
+                        raise ContractError("caller of %s has no ghost %s" % (cu.name, gp))
+                    env2[gp] = st.env[gp]
                 for p_, sp_ in cu.params.items():
                     if ambient(sp_):
                         env2[p_] = self.make_value(sp_, st, p_)
@@ -345,13 +350,22 @@ class Executor(EvalMixin, MethodsMixin, ExecMixin):
     def take_slice(self, body, sl):
         """sl = (first_pattern, last_pattern): consecutive top-level statements of `body` (or of a nested
         block found by searching) from the first statement matching first_pattern to the one matching last."""
-        first, last = norm(sl[0]), norm(sl[1])
+        import re
+
+        def matcher(pattern):
+            if "$" in pattern:
+                rx = re.compile("^" + re.escape(norm(pattern.replace("$X", "WILDCARD__"))).replace("WILDCARD__", ".+") + "$", re.S)
+                return lambda t: bool(rx.match(t))
+            p_ = norm(pattern)
+            return lambda t: t == p_
+        mfirst, mlast = matcher(sl[0]), matcher(sl[1])
 
         def search(block):
             texts = [self.head_text(s) for s in block]
-            if first in texts:
-                i = texts.index(first)
-                js = [j for j in range(i, len(block)) if texts[j] == last]
+            starts = [i for i, t in enumerate(texts) if mfirst(t)]
+            if starts:
+                i = starts[0]
+                js = [j for j in range(i, len(block)) if mlast(texts[j])]
                 if js:
                     return block[i:js[0] + 1]
             for s in block:
@@ -381,8 +395,9 @@ class Executor(EvalMixin, MethodsMixin, ExecMixin):
                 return st.alloc(HList(ek, n, z3.Array(fresh_name(nm + "_arr"), IntS, SORTS[ek])))
             if spec.startswith("dict["):
                 ek = spec[5:-1]
-                return st.alloc(HDict(ek, z3.Array(fresh_name(nm + "_keys"), StrS, BoolS),
-                                      z3.Array(fresh_name(nm + "_vals"), StrS, SORTS[ek])))
+                if "," in ek:
+                    ek = ("tuple",) + tuple(x.strip() for x in ek.split(","))
+                return st.alloc(self.fresh_dict(ek, nm, st, sized=True))
             if spec.startswith("ddict["):
                 ek = spec[6:-1]
                 return st.alloc(HDict(ek, z3.Array(fresh_name(nm + "_keys"), StrS, BoolS),
@@ -390,6 +405,8 @@ class Executor(EvalMixin, MethodsMixin, ExecMixin):
             if spec == "file":
                 out = st.alloc(HList("str", z3.IntVal(0), z3.K(IntS, z3.StringVal(""))))
                 return st.alloc(HObj("file", {"out": out}))
+            if spec == "opaque":
+                return st.alloc(HOpaque())
             if spec == "emptylist":
                 return st.alloc(HCList([]))
             raise ContractError("param spec %r" % spec)
